@@ -153,9 +153,17 @@ static int vi_switch(int id)
 		char *old = w_path && w_path[0] ? w_path : "/";
 		int row = w_row, off = w_off, top = w_top, left = w_left;
 		char *ec = "ew";
+		char *d;
 		if (w_path && strcmp(w_path, ex_path()) == 0)
 			ec = "e";
-		snprintf(cmd, sizeof(cmd), "%s! %s", ec, old);
+		d = cmd + snprintf(cmd, sizeof(cmd), "%s! ", ec);
+		/* the path is an ex argument: quote what ex would interpret */
+		for (; *old && d + 2 < cmd + sizeof(cmd); old++) {
+			if (strchr("\\|\"%#=+ \t", *old))
+				*d++ = '\\';
+			*d++ = *old;
+		}
+		*d = '\0';
 		free(w_path);
 		w_path = uc_dup(ex_path());
 		w_row = xrow, w_off = xoff, w_top = xtop, w_left = xleft;
